@@ -237,11 +237,12 @@ Proof.
   destruct ((lol <? -9223372036854775808)%Z || (9223372036854775807 <? lol)%Z) eqn:Erange; [apply post_raise; exact H|].
   set (len := if (lol <? 0)%Z then 0 else Z.to_N lol).
   assert (Hip : ip0 mod U64 < U64) by (apply N.mod_lt; lia).
-  eapply post_bind; [apply (mem_decide_storage_ok ev al s n c H)|]. intros [] s1 H1. rewrite bind_gets, bind_modify.
+  eapply post_bind; [apply (mem_decide_storage_ok ev al s n c H)|]. intros [] s1 H1. rewrite bind_modify, bind_gets, bind_modify.
   unfold I' in H1. set (fo := fshape s1) in *.
-  set (s2 := set_err false (m_err_addr s1) s1). assert (H2 : I n fo c s2) by exact H1.
+  set (s2 := set_err false (m_err_addr (set_kept None s1)) (set_kept None s1)). assert (H2 : I n fo c s2) by exact H1.
   assert (Efl : m_fl s2 = m_fl s1) by reflexivity. clearbody s2.
   pose proof (flat_count_shape _ _ _ _ H1) as Hcnt.
+  change (m_fl (set_kept None s1)) with (m_fl s1).
   (* the three dispatch targets *)
   eapply (post_bind_w _ _ _ (fun rr s' => I n fo c s' /\ wf_runres rr) (I n fo c)); [|intros sx Hx; eapply I'_of; exact Hx|].
   { destruct (e_measure ev && (len =? 0)).
@@ -257,9 +258,12 @@ Proof.
       eapply post_bind; [apply (try_alloc_ok al (len * 8) s2 n fo c H2)|]. intros ok s3 (-> & H3 & _).
       destruct ok; [apply post_ret; cbn; auto|apply post_raise; exact H3]. }
     intros ring s3 [H3 Hring]. apply loop_n_ok; [exact H3|apply wf_init_locals; assumption|]. cbn. exact Hcnt. }
-  intros rr s3 [H3 Hrr]. destruct rr as [cz l|l|l].
+  intros rr s3 [H3 Hrr]. destruct rr as [cz l|e l|l].
   - destruct (ring_readout_ok l Hrr) as [lo ->]. rewrite bind_lift_ok, bind_gets. apply post_ret. eapply I'_of; exact H3.
-  - apply post_raise. eapply I'_of; exact H3.
+  - eapply (post_bind _ _ _ (fun _ s' => I n fo c s')).
+    + match goal with |- context [if ?g then _ else _] => destruct g end; [|apply post_ret; exact H3].
+      destruct (ring_readout_ok l Hrr) as [lo ->]. rewrite bind_lift_ok. apply post_modify. exact H3.
+    + intros [] s4 H4. apply post_raise. eapply I'_of; exact H4.
   - apply post_ret. eapply I'_of; exact H3.
 Qed.
 
